@@ -229,6 +229,8 @@ FLAVOURS = {
     "oid-ci": dict(oip=(False, False), cs=(False, False)),
     "path-ci": dict(oip=(True, True), cs=(False, False)),
     "oid-filt": dict(oip=(False, False), filt=True),
+    "oid-cics": dict(oip=(False, False), cs=(False, True)),       # case-insensitive local account, case-sensitive remote one
+    "oid-csci": dict(oip=(False, False), cs=(True, False)),
 }
 
 
